@@ -115,6 +115,10 @@ def run(ck):
     for k in ["missing", "0", "1", "4096", "70000"]: lines.append("fsize " + k)
     for tree, p in [([], "."), (["d:a"], "a/../a"), (["d:a", "l:k>a"], "k"), (["d:a", "l:k>a"], "k/.."), ([], "nope"), (["f:f"], "f"), (["d:a"], "@/a/./"), (["l:d>nowhere"], "d")]:
         lines.append("canon %s | %s" % (" ".join(tree), hx(p)))
+    # canonical_path over the trees with symbolic links: the model's path resolution against realpath
+    for tree in LINK_TREES + [[], ["d:a", "f:a/f"], ["d:a", "d:a/b", "f:a/b/f"]]:
+        for sh in shapes(3, ("k", "a", "b", "f", "..", ".", "")):
+            if sh: lines.append("canon %s | %s" % (" ".join(tree), hx(sh))); ck.count_distinct(lines[-1])
     lines.append("foreach"); lines.append("foreach f:x"); lines.append("foreach f:x d:y f:z.txt f:.hidden d:..a")
     # descriptor 0 free: the first file a function opens gets number 0 (file_equals, dir_for_each, canonical_path, file_size …)
     lines += ["fd0 " + l for i, l in enumerate(lines) if (l.split()[0] in ("feq", "feqz", "feqino") and i % 5 == 0) or l.split()[0] in ("feqmissing", "feqproc", "fsops", "foreach", "fsize", "ftype", "canon")]
